@@ -63,6 +63,15 @@ type Fn struct {
 	Ps    []Param  `json:"ps"`
 	Rs    []Result `json:"rs"`
 	Enc   Enc      `json:"enc"`
+	// Nest: the Invoke calls the body of the function makes on the container while it runs
+	// (function I of kind inv on scope S), in order, before it returns
+	Nest []NestCall `json:"nest,omitempty"`
+}
+
+// NestCall is one re-entrant Invoke made by a user function.
+type NestCall struct {
+	I string `json:"i"`
+	S string `json:"s"`
 }
 
 // Opts are the container options.
@@ -78,6 +87,17 @@ type Catalog struct {
 	Opts   []Opts            `json:"opts"`   // option records a container may start with
 	Fns    map[string]*Fn    `json:"fns"`
 	Note   string            `json:"note,omitempty"`
+}
+
+// NestedInvs is the set of functions that are only invoked from inside other user functions.
+func (c *Catalog) NestedInvs() map[string]bool {
+	m := map[string]bool{}
+	for _, f := range c.Fns {
+		for _, nc := range f.Nest {
+			m[nc.I] = true
+		}
+	}
+	return m
 }
 
 // FnIDs returns the function ids in sorted order.
@@ -203,6 +223,13 @@ func (c *Catalog) TLA() string {
 				path = append(path, fmt.Sprint(x))
 			}
 			fmt.Fprintf(&b, "[k |-> %s, m |-> %s, op |-> <<%s>>]", q(p.K), q(p.M), strings.Join(path, ", "))
+		}
+		b.WriteString(">>, nest |-> <<")
+		for j, nc := range f.Nest {
+			if j > 0 {
+				b.WriteString(", ")
+			}
+			fmt.Fprintf(&b, "[i |-> %s, s |-> %s]", q(nc.I), q(nc.S))
 		}
 		b.WriteString(">>, rs |-> <<")
 		for j, r := range f.Rs {
